@@ -2211,6 +2211,13 @@ impl Kanata {
             && self.dynamic_macro_replay_state.is_none()
             && self.dynamic_macro_record_state.is_none()
             && self.caps_word.is_none()
+            // With override-release-on-activation the tick that activates an override drops
+            // the overridden key's state; the override output is released by the next tick.
+            && !(self.override_release_on_activation
+                && self
+                    .override_states
+                    .removed_oscs()
+                    .any(|osc| !osc.is_modifier()))
             && self.vkeys_pending_release.is_empty()
             && !self.layout.b().states.iter().any(|s| {
                 matches!(s, State::SeqCustomPending(_) | State::SeqCustomActive(_))
